@@ -1,6 +1,11 @@
 //! vh — verification harness CLI
 //!   vh check <ID> [--tier quick|thorough] [--seed N] [--verif-dir DIR] [--scale F] [--no-evidence]
 //!   vh replay <file>
+//!
+//! `check` runs as a supervised child: the parent re-executes itself with VH_CHILD=1 and, if
+//! the child dies abnormally (signal, abort, sanitizer report), finds the journaled case that
+//! kills a fresh process, minimises it by re-running children and reports it as the violation.
+use std::process::Command;
 use vh::checks::*;
 use vh::runner::Known;
 
@@ -8,11 +13,164 @@ fn arg(args: &[String], name: &str) -> Option<String> {
     args.iter().position(|a| a == name).and_then(|i| args.get(i + 1).cloned())
 }
 
+fn abnormal(code: Option<i32>) -> bool {
+    !matches!(code, Some(0) | Some(1) | Some(2))
+}
+
+/// does `vh replay <file>` die abnormally (true), finish (false) ?  None = it hung
+fn replay_crashes(exe: &std::path::Path, file: &str, verif_dir: &str) -> Option<bool> {
+    let mut child = Command::new(exe)
+        .args(["replay", file, "--verif-dir", verif_dir])
+        .env("VH_CHILD", "1")
+        .stdout(std::process::Stdio::null())
+        .stderr(std::process::Stdio::null())
+        .spawn()
+        .ok()?;
+    let t0 = std::time::Instant::now();
+    loop {
+        match child.try_wait() {
+            Ok(Some(st)) => return Some(abnormal(st.code())),
+            Ok(None) => {
+                if t0.elapsed().as_secs() > 120 {
+                    let _ = child.kill();
+                    let _ = child.wait();
+                    return None;
+                }
+                std::thread::sleep(std::time::Duration::from_millis(5));
+            }
+            Err(_) => return Some(false),
+        }
+    }
+}
+
+fn ops_path(v: &serde_json::Value) -> Option<Vec<&'static str>> {
+    if v["case"]["ops"].is_array() {
+        Some(vec!["case", "ops"])
+    } else if v["case"]["case"]["ops"].is_array() {
+        Some(vec!["case", "case", "ops"])
+    } else {
+        None
+    }
+}
+
+fn get_mut<'a>(v: &'a mut serde_json::Value, path: &[&str]) -> &'a mut serde_json::Value {
+    let mut cur = v;
+    for p in path {
+        cur = &mut cur[*p];
+    }
+    cur
+}
+
+/// delta-debug the `ops` array of a crashing journal entry with child re-runs
+fn minimize_crash(exe: &std::path::Path, mut v: serde_json::Value, scratch: &str, verif_dir: &str) -> serde_json::Value {
+    let path = match ops_path(&v) {
+        Some(p) => p,
+        None => return v,
+    };
+    let mut budget = 200usize;
+    let crashes = |cand: &serde_json::Value| -> bool {
+        let _ = std::fs::write(scratch, serde_json::to_vec(cand).unwrap_or_default());
+        replay_crashes(exe, scratch, verif_dir) == Some(true)
+    };
+    let mut chunk = (get_mut(&mut v, &path).as_array().map(|a| a.len()).unwrap_or(0) / 2).max(1);
+    loop {
+        let mut i = 0;
+        let mut progress = false;
+        loop {
+            let n = get_mut(&mut v, &path).as_array().map(|a| a.len()).unwrap_or(0);
+            if i >= n || budget == 0 {
+                break;
+            }
+            let mut cand = v.clone();
+            {
+                let arr = get_mut(&mut cand, &path).as_array_mut().unwrap();
+                let end = (i + chunk).min(arr.len());
+                arr.drain(i..end);
+            }
+            budget -= 1;
+            if crashes(&cand) {
+                v = cand;
+                progress = true;
+            } else {
+                i += chunk;
+            }
+        }
+        if budget == 0 || (chunk == 1 && !progress) {
+            break;
+        }
+        if !progress {
+            chunk = (chunk / 2).max(1);
+        }
+    }
+    let _ = std::fs::remove_file(scratch);
+    v
+}
+
+fn supervise(args: &[String], id: &str, verif_dir: &str) -> i32 {
+    let exe = std::env::current_exe().expect("current_exe");
+    let jdir = format!("{}/work/journal", verif_dir);
+    let _ = std::fs::create_dir_all(&jdir);
+    // stale journals of this property
+    if let Ok(rd) = std::fs::read_dir(&jdir) {
+        for e in rd.flatten() {
+            if e.file_name().to_string_lossy().starts_with(&format!("{}-", id)) {
+                let _ = std::fs::remove_file(e.path());
+            }
+        }
+    }
+    let status = Command::new(&exe).args(&args[1..]).env("VH_CHILD", "1").status();
+    let code = match status {
+        Ok(s) => s.code(),
+        Err(e) => {
+            println!("INCONCLUSIVE property={} cannot start the checking process: {}", id, e);
+            return 2;
+        }
+    };
+    if !abnormal(code) {
+        return code.unwrap_or(2);
+    }
+    // the child died: find the journaled case that kills a fresh process
+    let mut files: Vec<String> = std::fs::read_dir(&jdir)
+        .map(|rd| rd.flatten().map(|e| e.path().to_string_lossy().to_string()).filter(|p| p.contains(&format!("/{}-w", id))).collect())
+        .unwrap_or_default();
+    files.sort();
+    for f in &files {
+        let mut hit = false;
+        for _ in 0..3 {
+            if replay_crashes(&exe, f, verif_dir) == Some(true) {
+                hit = true;
+                break;
+            }
+        }
+        if hit {
+            let text = std::fs::read_to_string(f).unwrap_or_default();
+            let v: serde_json::Value = serde_json::from_str(&text).unwrap_or(serde_json::Value::Null);
+            let mut v = minimize_crash(&exe, v, &format!("{}/{}-scratch.json", jdir, id), verif_dir);
+            v["observed"] = serde_json::json!(format!("the checking process died abnormally (exit status {:?}: signal, abort or failed unsafe-precondition check) while executing this case; `vh replay` of this file dies the same way", code));
+            v["signature"] = serde_json::json!("process-crash");
+            let body = serde_json::to_string_pretty(&v).unwrap_or_default();
+            let d = format!("{}/replays/{}", verif_dir, id);
+            let _ = std::fs::create_dir_all(&d);
+            let path = format!("{}/crash-{:016x}.json", d, vh::ops::fnv64(body.as_bytes()));
+            let _ = std::fs::write(&path, body);
+            println!("VIOLATION property={} replay={}", id, path);
+            println!("  the checking process died abnormally (exit status {:?}) while executing the case in the replay file (memory corruption or a failed unsafe-precondition check inside the library)", code);
+            return 1;
+        }
+    }
+    println!("INCONCLUSIVE property={} the checking process died abnormally (exit status {:?}) and none of the {} journaled cases reproduces the crash in a fresh process", id, code, files.len());
+    2
+}
+
 fn main() {
     let args: Vec<String> = std::env::args().collect();
+    let verif_dir = arg(&args, "--verif-dir").or_else(|| std::env::var("VERIF_DIR").ok()).unwrap_or_else(|| "/verif".into());
+    if args.get(1).map(|s| s.as_str()) == Some("check") && std::env::var("VH_CHILD").is_err() && !args.iter().any(|a| a == "--emit-json") {
+        let id = args.get(2).cloned().unwrap_or_default();
+        std::process::exit(supervise(&args, &id, &verif_dir));
+    }
     vh::inst::install_panic_hook();
     vh::inst::thread_init();
-    let verif_dir = arg(&args, "--verif-dir").or_else(|| std::env::var("VERIF_DIR").ok()).unwrap_or_else(|| "/verif".into());
     match args.get(1).map(|s| s.as_str()) {
         Some("check") => {
             let id = args.get(2).cloned().unwrap_or_default();
@@ -25,6 +183,7 @@ fn main() {
             let workers: usize = arg(&args, "--workers").and_then(|s| s.parse().ok()).unwrap_or(16);
             let known = Known::load(&format!("{}/known_findings.txt", verif_dir));
             let ctx = Ctx { id: id.clone(), tier, seed, verif_dir: verif_dir.clone(), known, workers, scale };
+            vh::runner::start_watchdog(id.clone(), if tier == Tier::Quick { 120 } else { 600 });
             let t0 = std::time::Instant::now();
             let out = vh::registry::run_check(&ctx);
             let wall = t0.elapsed().as_secs_f64();
@@ -38,16 +197,16 @@ fn main() {
             for l in &out.known_lines {
                 println!("{}", l);
             }
-            if let Some(why) = &out.inconclusive {
-                println!("INCONCLUSIVE property={} {}", id, why);
-                std::process::exit(2);
-            }
             if !out.violations.is_empty() {
                 for (path, msg) in &out.violations {
                     println!("VIOLATION property={} replay={}", id, path);
                     println!("  {}", msg);
                 }
                 std::process::exit(1);
+            }
+            if let Some(why) = &out.inconclusive {
+                println!("INCONCLUSIVE property={} {}", id, why);
+                std::process::exit(2);
             }
             println!(
                 "OK property={} tier={:?} seed={} evaluations={} distinct_nontrivial={} wall_s={:.1}",
